@@ -179,9 +179,17 @@ func genPotVec(r *rand.Rand) *PotVec {
 	n := 2 + r.Intn(9)
 	v := &PotVec{}
 	mode := r.Intn(4)
+	if r.Intn(12) == 0 {
+		mode = 4
+	}
 	for i := 0; i < n; i++ {
 		var c int64
 		switch mode {
+		case 4: // very large amounts
+			c = []int64{1 << 31, 1 << 53, 1 << 55}[r.Intn(3)] + int64(r.Intn(7)) - 3
+			if r.Intn(4) == 0 {
+				c = int64(r.Intn(5))
+			}
 		case 0:
 			c = int64(r.Intn(4))
 		case 1:
